@@ -1143,7 +1143,7 @@ class StochasticTMLE:
 
             # Outcome model under treatment plan
             if self._out_model_custom:
-                _, data_star = patsy.dmatrices(self._q_model + ' - 1', self.df)
+                _, data_star = patsy.dmatrices(self._q_model + ' - 1', df)
                 y_star = stochastic_outcome_predict(xdata=data_star,
                                                     fit_ml_model=self._outcome_model,
                                                     continuous=self._continuous_outcome)
